@@ -42,6 +42,35 @@ type Tree struct {
 	trap2     *trap2Info
 	cpinv     *cpInvInfo
 	rtg       *retargetInfo
+	stale     *staleCtxInfo
+	shv       *shortHeavyInfo
+
+	// forceTime, if non-zero, is the timestamp of the next mined header
+	// (valid or not); reset by mine
+	forceTime int64
+}
+
+// staleCtxInfo: two reorganisation attempts in a row. The accepted chain is
+// main ++ A (A forks at fork); X forks at fork too, ties with A or is one
+// header shorter, and its timestamps are many median windows away from A's
+// (low: X far earlier, high: X far later). Y forks at an A header whose height
+// X covers and is longer than what it displaces; the timestamp of its first
+// header lies between the median time of its true ancestors and the median
+// computed over X's headers: with low, Y is INVALID (not after the true
+// median), with high it is valid.
+type staleCtxInfo struct {
+	low              bool
+	fork, aTip, xTip *Node
+	yFork, yTip      *Node
+	nowBig           int64
+}
+
+// shortHeavyInfo: a fork below a retarget boundary; B has FEWER headers than
+// A has above the fork point but strictly more work, because the two
+// branches' retarget periods differ so much that one of the clamps binds.
+type shortHeavyInfo struct {
+	fork, aTip, bTip *Node
+	maxSide          bool
 }
 
 // cpInvInfo: a checkpoint at height c above everything the client has; bad is
@@ -214,6 +243,9 @@ func (t *Tree) mine(r *rand.Rand, parent *Node, dt int64, corrupt string, now in
 	mtp := t.medianTime(parent)
 	if tm <= mtp {
 		tm = mtp + 1
+	}
+	if t.forceTime != 0 {
+		tm, t.forceTime = t.forceTime, 0
 	}
 	switch corrupt {
 	case "time-old":
